@@ -56,7 +56,7 @@ class C19(Check):
     components = {"real": ["ioflo.base.storing.Share", "ioflo.base.storing.Data", "ioflo.base.storing.Deck", "ioflo.base.storing.Store (stamp)"],
                   "stub": ["store clock advanced by the simulator"]}
     assumptions = ["invalid names are exercised one field per call (what a multi-field call does after a rejected name is not stated)"]
-    required_probes = ["rejected-name", "create-existing", "create-new", "no-store", "store-replaced", "spew-empty", "gulp-none", "delete-readd",
+    required_probes = ["pop-present", "pop-default-is-the-stored-object", "rejected-name", "create-existing", "create-new", "no-store", "store-replaced", "spew-empty", "gulp-none", "delete-readd",
                        "multi-source", "create-multi-last-source-adds-nothing"]
     quick_runs = 30000
     thorough_runs = 1500000
@@ -97,7 +97,11 @@ class C19(Check):
             elif r < 0.60:
                 ops.append(["get", g.choice(GOOD)])      # reading by an invalid name is outside the statement
             elif r < 0.67:
-                ops.append(["del", g.choice(GOOD)])
+                if g.random() < 0.4:
+                    # pop with / without a default; the default is sometimes the very object a field holds (None, 0, True, "s")
+                    ops.append(["pop", g.choice(GOOD)] + ([g.choice([None, 0, 1, "s", True, "dflt"])] if g.random() < 0.7 else []))
+                else:
+                    ops.append(["del", g.choice(GOOD)])
             elif r < 0.77:
                 ops.append(["adv", g.choice([0, 1, 1, 2, 8])])
             elif r < 0.80:
@@ -219,6 +223,16 @@ class C19(Check):
                     del sh[op[1]]
                     m.delete(op[1])
                     out.probe("delete")
+                elif code == "pop":
+                    had, val = m.get(op[1])
+                    want_exc = not had and len(op) < 3
+                    want_ret = val if had else (op[2] if len(op) > 2 else None)
+                    ret = sh.pop(op[1], *op[2:])
+                    if had:
+                        m.delete(op[1])
+                        out.probe("pop-present")
+                        if len(op) > 2 and val is op[2]:
+                            out.probe("pop-default-is-the-stored-object")
                 elif code == "push":
                     sh.push(op[1])
                     m.deck.append(op[1])
@@ -249,7 +263,7 @@ class C19(Check):
                 out.violate("exception", "%s %s" % (code, "raised" if exc else "accepted an invalid / missing name"),
                             "%s: raised %r, expected %s" % (label, exc, "an exception" if want_exc else "none"))
                 break
-            if code in ("get", "pull", "spew") and exc is None and ret != want_ret:
+            if code in ("get", "pull", "spew", "pop") and exc is None and ret != want_ret:
                 out.violate("result", "%s returned wrong element" % code, "%s returned %r want %r" % (label, ret, want_ret))
                 break
             try:
@@ -273,7 +287,7 @@ class C19(Check):
         # delete followed by re-add lands at the end (probe only)
         seen_del = set()
         for op in plan["ops"]:
-            if op[0] == "del":
+            if op[0] in ("del", "pop"):
                 seen_del.add(op[1])
             elif op[0] in ("update", "change", "create", "set") and op[1] in seen_del:
                 out.probe("delete-readd")
